@@ -41,6 +41,21 @@ func VerifH16GroupBy() {
 		}
 		fields[n] = verifSetField(n, frag)
 	}
+	// optional filter: Row(g=1) holding a chosen subset of the two columns
+	inFilter := [2]bool{true, true}
+	var filter *pql.Call
+	if verifChoice("filter", verifBound("filters", 2)) == 1 {
+		gfrag := verifNewFragment(CacheTypeNone, 0)
+		sub := [][2]bool{{true, false}, {false, true}, {true, true}}[verifChoice("filter.cols", 3)]
+		inFilter = sub
+		for c := 0; c < 2; c++ {
+			if sub[c] {
+				_, _ = gfrag.setBit(1, cols[c])
+			}
+		}
+		fields["g"] = verifSetField("g", gfrag)
+		filter = &pql.Call{Name: "Row", Args: map[string]interface{}{"g": uint64(1)}}
+	}
 	idx := &Index{name: "i", fields: fields, Stats: stats.NopStatsClient}
 	e := &executor{Holder: &Holder{indexes: map[string]*Index{"i": idx}, Stats: stats.NopStatsClient}}
 
@@ -73,7 +88,7 @@ func VerifH16GroupBy() {
 			for rc := 0; rc < 2; rc++ {
 				var n uint64
 				for c := 0; c < 2; c++ {
-					if pat[0][ra][c] && pat[1][rb][c] && pat[2][rc][c] {
+					if pat[0][ra][c] && pat[1][rb][c] && pat[2][rc][c] && inFilter[c] {
 						n++
 					}
 				}
@@ -94,7 +109,7 @@ func VerifH16GroupBy() {
 		}
 	}
 
-	got, err := e.executeGroupByShard(context.Background(), "i", call, nil, 0, make([]RowIDs, 3))
+	got, err := e.executeGroupByShard(context.Background(), "i", call, filter, 0, make([]RowIDs, 3))
 	verifReach("group by executed")
 	verifAssert(err == nil, "GroupBy: no error")
 	verifAssert(len(got) == len(want), "GroupBy: number of groups")
